@@ -127,6 +127,22 @@ def build_unit(work, name, u):
     r = sh(cmd)
     if r.returncode: raise Broken('ir2c failed for unit %s:\n%s' % (name, r.stdout[-3000:]))
     inf = json.load(open(info)); inf['seconds'] = round(time.time() - t0, 2); inf['mode'] = mode; inf['source'] = ', '.join(srcs)
+    if u.get('selfcall'):
+        # inductive harnesses: direct recursive calls of a root are redirected to a harness-provided stub (the induction hypothesis);
+        # prototype and definition lines (which start with the return type) keep the real name
+        txt = open(c).read(); out_ = []
+        for fn_, stub_ in u['selfcall'].items():
+            n_calls = 0
+            for ln_ in txt.split('\n'):
+                if fn_ + '(' in ln_ and not re.match(r'^(?:void|u8\*?|u16|u32|u64|agg\d+_\d+|double|float) ' + re.escape(fn_) + r'\(', ln_):
+                    n_calls += ln_.count(fn_ + '('); ln_ = ln_.replace(fn_ + '(', stub_ + '(')
+                out_.append(ln_)
+            if not n_calls: raise Broken('unit %s: selfcall: no recursive call of %s found' % (name, fn_))
+            txt = '\n'.join(out_); out_ = []
+            m_ = re.search(r'^(\w[\w\*]*) ' + re.escape(fn_) + r'\(([^)]*)\);', txt, re.M)
+            txt = txt.replace(m_.group(0), m_.group(0) + '\n%s %s(%s);' % (m_.group(1), stub_, m_.group(2)), 1)
+            inf['selfcalls_redirected'] = inf.get('selfcalls_redirected', 0) + n_calls
+        open(c, 'w').write(txt)
     if u.get('alias'):
         # give pattern-selected externs (names containing lambda numbers) a stable C name the harness can define
         txt = open(c).read()
